@@ -165,4 +165,10 @@ example : (run init [(.writer, .go), (.writer, .go), (.reader, .go), (.writer, .
     (.writer, .go), (.reader, .go), (.reader, .go), (.reader, .go), (.reader, .go)]).reads
     = [File.complete 1] := by decide
 
+/-- **Why removing the lock file is a violation**: with a reader that unlinks `.status.lock` after its read,
+a schedule exists in which a read observes the torn table - the invariant of `C12_no_torn_read` is gone. -/
+theorem C12_unlink_breaks_exclusion :
+    Lock.File.torn ∈ (Lock.runU { s := Lock.init, gone := false } Lock.tornSchedule).s.reads := by decide
+
+
 end MaestroVerif.C12
